@@ -1385,3 +1385,18 @@ package iavl
 //@   loop 2 invariant f0 <= version && version <= l0 + 1 && latestVersion == l0 && len(res) == version - f0
 //@   ensures [as-many-as-versions-from-first-to-latest] len(vs) == l0 - f0 + 1
 //@   modifies *
+
+// ---------------------------------------------------------------- nodedb.go: the legacy part of a rollback (C16/C09)
+// Every legacy version above the target loses its root record and exactly the nodes written at or after THAT version
+// — the version parsed from its root key; older nodes are shared with the versions that remain, and a commit without
+// writes has a root older than its version, so the root node's own version is not the threshold.
+//@ func (*nodeDB).DeleteVersionsFrom$1(k, v) (err)
+//@   props C16 C09
+//@   nosafety
+//@   opaquecalls
+//@   callsite KeyFormat).Scan$ [version-parsed-from-the-root-key] arg0 == legacyRootKeyFormat && arg1 == k
+//@   callsite nodeDB).deleteLegacyNodes [threshold-is-the-version-in-the-root-key] arg0 == ndb && arg1 == version && arg2 == v && calls("KeyFormat).Scan$") == 1
+//@   callsite Batch).Delete [root-record-deleted] arg0 == k
+//@   ensures [decided-from-the-key-alone] calls("nodeDB).GetNode") == 0
+//@   ensures [nodes-then-root-record] err == nil ==> calls("nodeDB).deleteLegacyNodes") == 1 && calls("Batch).Delete") == 1
+//@   modifies *
